@@ -12,7 +12,9 @@ T = {}
 # clauses added after the first version of a check (see DESIGN.md 7.1)
 LATER = {
     "C02": " Later clauses: 'scale' (machines of 16-64 chips on a side, "
-           "chains of 500-5400 vertices) and 'no-working-chip'.",
+           "chains of 500-5400 vertices) and 'no-working-chip'; packed "
+           "problems for the annealing placers; the same objects placed "
+           "twice.",
     "C03": " Later: a 'dead-links' clause (10-30% one-way dead links), a "
            "'broadcast' clause (nets of 20-80 sinks, small radii), caller-"
            "named core resources, and faults recorded on the Machine object "
@@ -21,9 +23,14 @@ LATER = {
            "(tables of one key space minimised one after another) that runs "
            "every case in a fresh-state child (vf/isolate.py).",
     "C05": " Later: a 'sequence' clause (several allocate calls in one "
-           "process, fresh-state child per case) and quantities beyond 2**53.",
+           "process, fresh-state child per case), quantities beyond 2**53, a "
+           "'many-reservations' clause (300-2500 reserved ranges), constraints "
+           "of subclasses and equal-but-distinct resource identifiers.",
     "C07": " Later: an 'own-struct-file' clause (struct definitions of the "
-           "caller's own with decimal/hexadecimal numbers).",
+           "caller's own with decimal/hexadecimal numbers, a per-core struct "
+           "that declares a base, definitions replaced half way); histories "
+           "carry on after an SCP error, start with a blackout one time in "
+           "six and may meet fatal return codes.",
     "C10": " Later: a 'thousand-hops' clause (a route through every chip of "
            "a mesh of more than a thousand chips).",
     "C12": " Later: a 'tree-in-rounds' clause (one RegionCoreTree read "
@@ -37,7 +44,8 @@ LATER = {
            "at different widths, explicit initial contexts, blocks left by "
            "KeyboardInterrupt/SystemExit, lists of boards.",
     "C20": " Later: every history runs in a fresh-state child; refused "
-           "sends; option names the boot sets itself; re-used image files.",
+           "sends; option names the boot sets itself; re-used image files; a "
+           "boot suspended in a send while another board is booted.",
 }
 
 
